@@ -143,6 +143,7 @@ func run(r *vk.Run) {
 	cancelDuringSeed(r)
 	mixedSubscribers(r)
 	mixedValueSubscribers(r)
+	joinDuringWrite(r)
 	publishOrder(r)
 	lateSubscriber(r)
 	lossyValue(r)
@@ -663,6 +664,88 @@ func mixedValueSubscribers(r *vk.Run) {
 		stopAll()
 	}
 	r.Require("mixed-value-subscriber-scenarios", 20)
+}
+
+// joinDuringWrite: a subscriber is held between taking its snapshot and registering for events while one write is
+// made and nothing follows it. Seed or event, the subscriber "eventually receives the most recent value": at the
+// quiescent point its last received value / its folded view is what Get / List return.
+func joinDuringWrite(r *vk.Run) {
+	sched := vk.NewSched()
+	defer sched.Close()
+	idx := 0
+	for _, kind := range []string{"value", "pull", "pullid"} {
+		for _, bp := range []bool{false, true} {
+			idx++
+			if !r.Mine(idx) {
+				continue
+			}
+			point := "col.sub.afterSnapshot"
+			if kind == "value" {
+				point = "value.sub.afterSnapshot"
+			}
+			v := resource.NewValue(resource.WithClock(clk{}), resource.WithInitialValue(mkValLocked("")))
+			col := resource.NewCollection(resource.WithClock(clk{}), resource.WithInitialRecord("a", mkValLocked("a")))
+			ctx, cancel := context.WithCancel(context.Background())
+			c := newConsumer()
+			c.cancel = cancel
+			c.grant(1 << 20)
+			park := sched.ParkAt(point, nil)
+			tj := vk.Go(func() {
+				switch kind {
+				case "value":
+					c.runVal(v.Pull(ctx, resource.WithBackpressure(bp)))
+				case "pull":
+					c.runCol(col.Pull(ctx, resource.WithBackpressure(bp)))
+				default:
+					c.runVal(col.PullID(ctx, "a", resource.WithBackpressure(bp)))
+				}
+			})
+			vk.Quiesce()
+			reached := park.Arrived()
+			next := mkValLocked("a")
+			tw := vk.Go(func() {
+				if kind == "value" {
+					v.Set(next)
+				} else {
+					col.Update("a", next)
+				}
+			})
+			vk.Quiesce()
+			park.Release()
+			gs, ok := r.MustQuiesce("c09-join-during-write")
+			if !ok {
+				c.stop()
+				return
+			}
+			r.Eval(1)
+			r.Count("join-during-write-scenarios", 1)
+			if reached {
+				r.Distinct(fmt.Sprintf("joinwrite|%s|%v", kind, bp))
+			}
+			mode := map[bool]string{true: "bp", false: "lossy"}[bp]
+			replay := map[string]any{"kind": kind, "bp": bp}
+			if !tj.Done() || !tw.Done() {
+				r.Violation("C09/join-during-write/stuck/"+kind+"/"+mode, fmt.Sprintf("the subscriber or the writer has not returned at the quiescent point\n%s", vk.DescribeGs(vk.LibraryGoroutines(gs, nil))), replay)
+				c.stop()
+				return
+			}
+			c.mu.Lock()
+			var last proto.Message
+			if kind == "pull" {
+				if n := len(c.colEv); n > 0 {
+					last = c.colEv[n-1].NewValue
+				}
+			} else if n := len(c.valEv); n > 0 {
+				last = c.valEv[n-1].Value
+			}
+			c.mu.Unlock()
+			if last == nil || !vk.SameMessage(last, next) {
+				r.Violation("C09/last-value/"+kind+"/join-during-write/"+mode, fmt.Sprintf("a %s subscriber (%s) was between its snapshot and its registration while %s was written, nothing was written afterwards: its last received value is %s, Get returns %s", kind, mode, vk.JSON(next), vk.JSON(last), vk.JSON(next)), replay)
+			}
+			c.stop()
+		}
+	}
+	r.Require("join-during-write-scenarios", 2)
 }
 
 // publishOrder: writers queue behind a delivery that a backpressured, momentarily idle subscriber is holding up;
